@@ -165,7 +165,7 @@ func ruleWR1(c *Ctx) {
 		// a temp-writer call with the same temp value must dominate on its nil edge
 		var writer ssa.CallInstruction
 		for _, call := range callsIn(e.Fn) {
-			cal := call.Common().StaticCallee()
+			cal := calleeOf(call.Common())
 			if cal == nil || !c.InModule(cal) || len(call.Common().Args) == 0 {
 				continue
 			}
@@ -190,7 +190,7 @@ func ruleWR1(c *Ctx) {
 		c.check(dom, fn, construct+"|b:temp-then-rename", pos, "rename is dominated by the temp writer's nil-error edge; source is <dst>+suffix",
 			"rename is reachable without the temp writer having succeeded (a failed or skipped write is renamed over the log)")
 		// (c) inside the temp writer
-		c.checkTempWriter(writer.Common().StaticCallee())
+		c.checkTempWriter(calleeOf(writer.Common()))
 	}
 	if rn == 0 {
 		c.bad("<module>", "rename#0|b:temp-then-rename", "-", "no rename onto a LOG-class path found: the atomic replace primitive is gone")
@@ -353,7 +353,7 @@ func ruleWR2(c *Ctx) {
 				}
 				ex := resolve(wargs[idx])
 				call, ri := callOf(ex)
-				if call == nil || ri != 0 || call.Call.StaticCallee() != readEvents || readEvents == nil {
+				if call == nil || ri != 0 || calleeOf(&call.Call) != readEvents || readEvents == nil {
 					c.bad(wfn, wcon, wpos, "`existing` is not the result of reading the log in this function: "+c.canon(ex))
 					continue
 				}
@@ -505,7 +505,7 @@ func ruleWR3(c *Ctx) {
 				writes = append(writes, call)
 			case name == "(*os.File).Sync" || name == "(*os.File).Stat" || name == "(*os.File).Name" || name == "(*os.File).Fd":
 			default:
-				if cal := call.Common().StaticCallee(); cal != nil && c.InModule(cal) {
+				if cal := calleeOf(call.Common()); cal != nil && c.InModule(cal) {
 					if msg := c.retryHelperOK(cal, call, handle); msg != "" {
 						bad = msg
 					} else {
@@ -631,7 +631,7 @@ func ruleWR4(c *Ctx) {
 				if !ok {
 					continue
 				}
-				cal := cv.Call.StaticCallee()
+				cal := calleeOf(&cv.Call)
 				if cal == nil || !c.InModule(cal) || len(cv.Call.Args) == 0 || c.canon(cv.Call.Args[0]) != pathCanon {
 					continue
 				}
@@ -672,7 +672,7 @@ func ruleWR4(c *Ctx) {
 		pass := edgesWhere(f, func(a Atom, holds bool) bool { return a.Kind == "bool" && strip(a.X) == flag && !holds })
 		okGuard := mustPassEdges(f, site.Block(), pass)
 		c.check(okGuard, fn, construct+"|tail-inspected", pos,
-			"append happens only when "+c.Name(insp.Call.StaticCallee())+" reports a newline-terminated tail",
+			"append happens only when "+c.Name(calleeOf(&insp.Call))+" reports a newline-terminated tail",
 			"the O_APPEND open is reachable on the unterminated-tail edge (or without consulting the inspection)")
 		// the unterminated edge must reach a prefix-preserving rewrite (a commit) — not silently drop the events
 		torn := edgesWhere(f, func(a Atom, holds bool) bool { return a.Kind == "bool" && strip(a.X) == flag && holds })
@@ -682,7 +682,7 @@ func ruleWR4(c *Ctx) {
 			region := reach(te.To(), nil, nil)
 			for _, call := range callsIn(f) {
 				if region[call.Block()] {
-					if cal := call.Common().StaticCallee(); cal != nil && commit[cal] {
+					if cal := calleeOf(call.Common()); cal != nil && commit[cal] {
 						rew = true
 					}
 				}
@@ -766,7 +766,7 @@ func ruleWR6(c *Ctx) {
 		if mc, ok := resolve(cl.Call.Value).(*ssa.MakeClosure); ok {
 			return isNested(mc.Fn.(*ssa.Function), rd)
 		}
-		if cal := cl.Call.StaticCallee(); cal != nil && c.InModule(cal) {
+		if cal := calleeOf(&cl.Call); cal != nil && c.InModule(cal) {
 			return len(callsNamed(cal, "encoding/json.Unmarshal")) > 0
 		}
 		return false
@@ -998,7 +998,7 @@ func ruleWR6(c *Ctx) {
 		cnt, loop := 0, false
 		for g := range c.F.TransitiveCallees(e) {
 			for _, call := range callsIn(g) {
-				cal := call.Common().StaticCallee()
+				cal := calleeOf(call.Common())
 				if cal == lg || cal == rd {
 					if g == lg && cal == rd {
 						continue // loadGraph -> readEvents is the one load
